@@ -90,17 +90,22 @@ def is_ser(v):
     return v["class"] == "SER"
 
 
-def chunk_gen_logs(out, wd, tier):
-    """S2 for the chunk layer: TLC enumerates serializer call sequences from Gen_Chunk.tla at the real constants, one
-    representative behaviour per window of step classes (VIEW); the harness replays each printed behaviour through the
-    real serializer and deserializer.  While generating, TLC also checks Delivered (reference receiver, real constants)."""
-    consts = dict(REAL, MaxSteps=3, K=1, Fine=False) if tier == "quick" else dict(REAL, MaxSteps=4, K=1, Fine=True)
-    cfg = os.path.join(wd, "Gen_Chunk_%s.cfg" % tier)
+def chunk_gen_logs(out, wd, tier, side="tx"):
+    """S2 for the chunk layer: TLC enumerates behaviours at the real constants - serializer call sequences from
+    Gen_Chunk.tla (side tx) or chunk-level behaviours of an arbitrary conformant peer from Gen_ChunkRx.tla (side rx) -
+    keeping one representative per window of step classes (VIEW); the harness replays each printed behaviour through
+    the real codec.  While generating, TLC also checks Delivered (reference receiver, real constants)."""
+    mod = "Gen_Chunk" if side == "tx" else "Gen_ChunkRx"
+    if side == "tx":
+        consts = dict(REAL, MaxSteps=3, K=1, Fine=False) if tier == "quick" else dict(REAL, MaxSteps=4, K=1, Fine=True)
+    else:
+        consts = dict(REAL, MaxSteps=6, K=1, Fine=False) if tier == "quick" else dict(REAL, MaxSteps=8, K=1, Fine=True)
+    cfg = os.path.join(wd, "%s_%s.cfg" % (mod, tier))
     vlib.write_cfg(cfg, constants=consts, invariants=["Delivered", "Emit"], view="GenView")
-    r = vlib.tlc("Gen_Chunk.tla", cfg, wd, workers=1 if tier == "quick" else 6, timeout=1500, xss="64m", xmx="8g")
+    r = vlib.tlc(mod + ".tla", cfg, wd, workers=1 if tier == "quick" else 6, timeout=1500, xss="64m", xmx="8g")
     if r.get("timeout") or not r["completed"] or r["violated"]:
         log(r["out"][-2000:])
-        raise ToolError("S2 generation Gen_Chunk failed (%s)" % (r["violated"] or "incomplete"))
+        raise ToolError("S2 generation %s failed (%s)" % (mod, r["violated"] or "incomplete"))
     paths = []
     for line in r["out"].splitlines():
         if line.startswith('"@@PATH|'):
@@ -112,30 +117,32 @@ def chunk_gen_logs(out, wd, tier):
         for n in range(1, len(k)):
             prefixes.add(k[:n])
     keep = [p for p, k in zip(paths, keys) if k not in prefixes]
-    pfile = os.path.join(wd, "Gen_Chunk.paths.ndjson")
+    pfile = os.path.join(wd, mod + ".paths.ndjson")
     with open(pfile, "w") as f:
         for p in keep:
             f.write(json.dumps(p) + "\n")
     vlib.build_harness()
     shards = 8
+    kind = "gen" if side == "tx" else "genrx"
 
     def gen(i):
-        path = os.path.join(wd, "gen_%d.ndjson" % i)
-        q = vlib.harness(["chunk", "gen", i, shards, pfile, "--seed", vlib.seed(), "--out", path])
+        path = os.path.join(wd, "%s_%d.ndjson" % (kind, i))
+        q = vlib.harness(["chunk", kind, i, shards, pfile, "--seed", vlib.seed(), "--out", path])
         return path, vlib.last_json(q.stdout)
     logs = vlib.parallel([(lambda i=i: gen(i)) for i in range(shards)], nproc=8)
     fmts = {}
     for p in keep:
         for st in p:
-            if st["k"] == "data":
+            if st["k"] in ("data", "start"):
                 fmts[st["fmt"]] = fmts.get(st["fmt"], 0) + 1
-    out.cov["s2"] = {"model": "Gen_Chunk (real constants: words mod 2^32, saturation at 0xFFFFFF)", "constants": {k: str(v) for k, v in consts.items()},
-                     "model_states_generated": r["generated"], "class_windows": r["distinct"], "behaviours_replayed": len(keep),
-                     "steps_by_header_format": {str(k): v for k, v in sorted(fmts.items())},
-                     "design_invariant": "Delivered held on every representative",
-                     "runs_on_real_codec": sum(i.get("runs", 0) for _, i in logs)}
+    out.cov["s2" if side == "tx" else "s2_rx"] = {
+        "model": mod + " (real constants: words mod 2^32, saturation at 0xFFFFFF)", "constants": {k: str(v) for k, v in consts.items()},
+        "model_states_generated": r["generated"], "class_windows": r["distinct"], "behaviours_replayed": len(keep),
+        "steps_by_header_format": {str(k): v for k, v in sorted(fmts.items())},
+        "design_invariant": "Delivered held on every representative",
+        "runs_on_real_codec": sum(i.get("runs", 0) for _, i in logs)}
     if len(fmts) < 4:
-        raise ToolError("S2 generation Gen_Chunk: not every header format was generated: %s" % fmts)
+        raise ToolError("S2 generation %s: not every header format was generated: %s" % (mod, fmts))
     return logs
 
 
@@ -202,7 +209,7 @@ def check_C06(tier):
     wd = vlib.workdir("C06")
     r = vlib.model_check("MC_Chunk.tla", "MC_Chunk_quick.cfg", wd, need_actions=["SendData", "SendSetCS", "Cont"])
     out.add_s1(r, "MC_Chunk_quick (any legal sender x reference receiver)")
-    logs = chunk_logs(wd, "foreign", tier)
+    logs = chunk_logs(wd, "foreign", tier) + chunk_gen_logs(out, wd, tier, side="rx")
     chunk_validate(out, logs, wd, False, True, is_des, "c06")
     sample_events(out, logs[0][0], ("Chunk", "Feed"))
     out.assumptions = CHUNK_ASSUME + ["three-way agreement: harness intent = TLA+ reference receiver = library output "
@@ -219,7 +226,7 @@ def check_C16(tier):
     out.add_s1(r, "MC_Chunk_il (interleaving, per-csid reassembly)")
     r = vlib.model_check("MC_Chunk.tla", "MC_Chunk_shared.cfg", wd, expect_violation="DeliveredExact", workers=4)
     out.cov["negative_control"] = "one partial buffer shared by all chunk streams (the library's structure before finding F10 was repaired) violates DeliveredExact at design level"
-    logs = chunk_logs(wd, "interleaved", tier)
+    logs = chunk_logs(wd, "interleaved", tier) + chunk_gen_logs(out, wd, tier, side="rx")
     chunk_validate(out, logs, wd, False, True, is_des, "c16")
     sample_events(out, logs[0][0], ("Chunk", "Feed"))
     out.assumptions = CHUNK_ASSUME
@@ -466,7 +473,8 @@ def check_C15(tier):
     r = vlib.model_check("MC_Staged.tla", "MC_Staged_eager.cfg", wd, workers=4, expect_violation="PartitionIndependent")
     out.cov["negative_control"] = "a stage that consumes a partial field violates PartitionIndependent"
     # valid streams: each stream is fed under two partitions; both logs must be accepted by the deterministic oracle
-    logs = chunk_logs(wd, "ser_fixed", tier, shards=4) + chunk_logs(wd, "foreign", tier, shards=4) + chunk_logs(wd, "interleaved", tier, shards=2)
+    logs = (chunk_logs(wd, "ser_fixed", tier, shards=4) + chunk_logs(wd, "foreign", tier, shards=4) + chunk_logs(wd, "interleaved", tier, shards=2)
+            + chunk_gen_logs(out, wd, tier, side="rx"))
     chunk_validate(out, logs, wd, False, False, is_des, "c15v")
     # any stream (valid, mutated, invalid): relational check of two partitions on two fresh instances
     plogs = sess_logs(wd, "pair", "x", tier)
